@@ -173,7 +173,9 @@ class ExactWeighted:
             var = Fraction(0)
         sig = fsqrt(var)
         kappa = 1.0 + (M / sig if sig > 0 else math.inf)
-        rel = 0.0 if var == 0 else 256 * n * EPS * kappa
+        # the incremental weighted update cancels (x - new_mean) against the mean itself when one weight dominates:
+        # the attainable accuracy scales with kappa^2 (observed), not kappa
+        rel = 0.0 if var == 0 else 256 * n * EPS * kappa * kappa
 
         def put(name, val):
             out[name] = (val, None if rel > ILL else abs(val) * rel)
